@@ -299,6 +299,68 @@ def instantiate(hyps, goal, max_inst=600):
     return qf + insts, goal2
 
 
+_MULF = {}
+
+
+def _uf(name, *sorts):
+    k = (name, tuple(str(x) for x in sorts))
+    if k not in _MULF:
+        _MULF[k] = z3.Function(name, *sorts)
+    return _MULF[k]
+
+
+def uf_abstract(t, cache=None):
+    """replace nonlinear *, /, div, mod, ^ by uninterpreted functions (arguments in canonical order).
+    Validity of the abstraction implies validity of the original formula."""
+    if cache is None:
+        cache = {}
+    key = t.get_id()
+    if key in cache:
+        return cache[key]
+    if z3.is_quantifier(t):
+        body = uf_abstract(t.body(), cache)
+        vars_ = [z3.Const(t.var_name(i), t.var_sort(i)) for i in range(t.num_vars())]
+        # rebuild with the same bound variables (de Bruijn indices are preserved by substitute_vars on the body)
+        r = z3.ForAll(vars_, z3.substitute_vars(body, *reversed(vars_))) if t.is_forall() else \
+            z3.Exists(vars_, z3.substitute_vars(body, *reversed(vars_)))
+        cache[key] = r
+        return r
+    if not z3.is_app(t) or t.num_args() == 0:
+        cache[key] = t
+        return t
+    args = [uf_abstract(a, cache) for a in t.children()]
+    k = t.decl().kind()
+    isnum = lambda x: z3.is_int_value(x) or z3.is_rational_value(x)
+    r = None
+    if k == z3.Z3_OP_MUL:
+        nums = [a for a in args if isnum(a)]
+        rest = sorted([a for a in args if not isnum(a)], key=lambda a: a.get_id())
+        if len(rest) >= 2:
+            srt = t.sort()
+            acc = rest[0]
+            for a in rest[1:]:
+                acc = _uf("MULF_" + str(srt), srt, srt, srt)(acc, a)
+            r = acc
+            for c in nums:
+                r = c * r
+    elif k == z3.Z3_OP_DIV and not isnum(args[1]):
+        r = _uf("DIVF", z3.RealSort(), z3.RealSort(), z3.RealSort())(args[0], args[1])
+    elif k == z3.Z3_OP_IDIV and not isnum(args[1]):
+        r = _uf("IDIVF", z3.IntSort(), z3.IntSort(), z3.IntSort())(args[0], args[1])
+    elif k == z3.Z3_OP_MOD and not isnum(args[1]):
+        r = _uf("MODF", z3.IntSort(), z3.IntSort(), z3.IntSort())(args[0], args[1])
+    elif k == z3.Z3_OP_POWER:
+        r = _uf("POWF", z3.RealSort(), z3.RealSort(), z3.RealSort())(
+            z3.ToReal(args[0]) if args[0].sort() == z3.IntSort() else args[0],
+            z3.ToReal(args[1]) if args[1].sort() == z3.IntSort() else args[1])
+        if t.sort() == z3.IntSort():
+            r = z3.ToInt(r)
+    if r is None:
+        r = t.decl()(*args)
+    cache[key] = r
+    return r
+
+
 def prepare_staged(hyps, opt, goal, cands=()):
     """SMT-LIB texts for every stage, generated in the calling thread (the z3 API is not thread-safe)"""
     texts = {"all": to_smt2(hyps, goal)}
@@ -308,6 +370,14 @@ def prepare_staged(hyps, opt, goal, cands=()):
             texts["inst"] = to_smt2(ih, ig)
         except z3.Z3Exception:
             pass
+    try:
+        cache = {}
+        hh = [uf_abstract(h, cache) for h in list(hyps) + list(opt or [])]
+        gg = uf_abstract(goal, cache)
+        if any(not a.eq(b) for a, b in zip(hh + [gg], list(hyps) + list(opt or []) + [goal])):
+            texts["ufabs"] = to_smt2(hh, gg)
+    except z3.Z3Exception:
+        pass
     for ci, cand in enumerate(cands):
         allh = _subst(list(hyps) + list(opt or []), cand)
         texts[f"cand{ci}"] = (to_smt2(allh, _subst([goal], cand)[0]), cand)
@@ -356,6 +426,13 @@ def _discharge_staged(texts, timeout_s):
                 r2["time"] = total
                 r2["stage"] = k
                 return r2
+        if "ufabs" in texts:
+            r5 = run_one(texts["ufabs"], timeout_s, use_cvc5=False)
+            total += r5["time"]
+            if r5["verdict"] == "unsat":
+                r5["time"] = total
+                r5["stage"] = "ufabs"
+                return r5
         if "inst" in texts:
             r4 = run_one(texts["inst"], timeout_s, use_cvc5=False)
             total += r4["time"]
